@@ -225,7 +225,7 @@ def run_shard(shard: dict, ctx, res, only=None) -> None:
         blk = fil.read_block(1, 10)
         Hb = blk.header
         cb = _Chk(Hb, res, shard)
-        for ff, tf in [(1, 1), (2, 1), (1, 2), (4, 3), (8, 5), (2, 10)]:
+        for ff, tf in [(1, 1), (2, 1), (1, 2), (4, 3), (8, 5), (2, 10), (3, 1), (5, 4)]:
             def f_bd(ff=ff, tf=tf):
                 b = blk.downsample(ffactor=ff, tfactor=tf)
                 src = [list(range(i * ff, (i + 1) * ff)) for i in range(C // ff)]
